@@ -10,8 +10,8 @@ RULE = ('one record per history of {input(chunk), result, raw_result, reset, clo
         'panic; exhaustive histories to depth 3 (quick) / 4 (thorough) over an 8-symbol alphabet plus random histories to length 30; '
         'distinct = (type, op-kind sequence with length classes)')
 ASSUMPTIONS = ['MAC reference functions of C05/C08; a panic ends the history (the object is retired)']
-FLOORS = {'evaluations': 8000, 'distinct': 4000,
 THOROUGH_ROUNDS = 40   # thorough tier: generator passes with derived seeds (runner.gen_rounds)
+FLOORS = {'evaluations': 8000, 'distinct': 4000,
           'coverage': {'result:repeated:len%16==0': 50, 'input-after-result': 50, 'result:first:len%16==0:after-reset': 50}}
 
 MACS = [('poly1305', 32, 16, True), ('hmac:sha1', None, 64, False), ('hmac:sha256', None, 64, False), ('hmac:sha512', None, 128, False),
